@@ -33,7 +33,27 @@ AbsChain == [ents |-> <<"r", "a", "a1">>,
 NoExpr == [ents |-> <<"r", "a", "b">>,
            supers |-> [e \in {"r", "a", "b"} |-> IF e = "r" THEN {} ELSE {"r"}],
            abstract |-> {}, expr |-> [e \in {"r", "a", "b"} |-> None]]
-Shapes == {Root3(t, abs) : t \in Trees3, abs \in (IF Deep THEN BOOLEAN ELSE {FALSE})}
+(* an intermediate supertype with its own expression that the root's expression does not mention *)
+Unmentioned(o2, abs) ==
+  [ents |-> <<"r", "a", "b", "s", "x", "y">>,
+   supers |-> [e \in {"r", "a", "b", "s", "x", "y"} |-> IF e = "r" THEN {} ELSE IF e \in {"a", "b", "s"} THEN {"r"} ELSE {"s"}],
+   abstract |-> IF abs THEN {"s"} ELSE {},
+   expr |-> [e \in {"r", "a", "b", "s", "x", "y"} |->
+               IF e = "r" THEN Op("oneof", <<Leaf("a"), Leaf("b")>>)
+               ELSE IF e = "s" THEN Op(o2, <<Leaf("x"), Leaf("y")>>) ELSE None]]
+(* two groups under one operator, one of them an entity joined with a ONEOF: depth 3 over five subtypes *)
+Wide(top, inner, mirror) ==
+  LET g1 == Op("oneof", <<Leaf("k"), Leaf("l")>>)
+      g2 == Op(inner, <<Leaf("m"), Op("oneof", <<Leaf("n"), Leaf("o")>>)>>)
+  IN [ents |-> <<"q", "k", "l", "m", "n", "o">>,
+      supers |-> [e \in {"q", "k", "l", "m", "n", "o"} |-> IF e = "q" THEN {} ELSE {"q"}],
+      abstract |-> {},
+      expr |-> [e \in {"q", "k", "l", "m", "n", "o"} |->
+                  IF e = "q" THEN Op(top, IF mirror THEN <<g2, g1>> ELSE <<g1, g2>>) ELSE None]]
+Shapes == {Unmentioned(o2, abs) : o2 \in (IF Deep THEN Ops ELSE {"oneof"}), abs \in BOOLEAN}
+          \cup {Wide(top, inner, mirror) : top \in (IF Deep THEN {"andor", "and"} ELSE {"andor"}),
+                                          inner \in (IF Deep THEN {"and", "andor"} ELSE {"and"}), mirror \in BOOLEAN}
+          \cup {Root3(t, abs) : t \in Trees3, abs \in (IF Deep THEN BOOLEAN ELSE {FALSE})}
           \cup {Root3(Op("oneof", <<Leaf("a"), Leaf("b"), Leaf("c")>>), TRUE), Root3(Op("andor", <<Leaf("a"), Leaf("b")>>), TRUE)}
           \cup {TwoLevel(o1, o2) : o1 \in (IF Deep THEN Ops ELSE {"oneof"}), o2 \in (IF Deep THEN Ops ELSE {"oneof", "and"})}
           \cup {Diamond(o) : o \in {"andor", "and"}} \cup {AbsChain, NoExpr}
